@@ -18,9 +18,10 @@ from fractions import Fraction as Fr
 
 
 class Hom:
-    __slots__ = ("deg", "indep", "mask", "steady")
+    __slots__ = ("deg", "indep", "mask", "steady", "why")
 
-    def __init__(self, deg=(), indep=False, mask=None, steady=True):
+    def __init__(self, deg=(), indep=False, mask=None, steady=True,
+                 why=None):
         # deg: tuple of (var, n, m) sorted by var, zero entries dropped
         self.deg = deg
         self.indep = indep
@@ -31,6 +32,8 @@ class Hom:
         # the scale (a sign test of a quantity that flips sign, a
         # comparison of quantities that scale differently, or unknown)
         self.steady = steady
+        # for an unsteady mask whose operands' tags are both known: text
+        self.why = why
 
     def __repr__(self):
         if self.deg == "*":
@@ -300,9 +303,9 @@ class Tracker:
         """a tag usable in arithmetic: MIXED counts as unknown"""
         return None if h is not None and h.mixed else h
 
-    def new_var(self, stem):
+    def new_var(self, stem, m=1):
         self.fresh += 1
-        return var(f"{stem}{self.fresh}")
+        return var(f"{stem}{self.fresh}", 1, m)
 
     @staticmethod
     def shuffled(v):
@@ -325,7 +328,13 @@ class Tracker:
                 elif ha.same(hb):
                     h = Hom(ha.deg, ha.indep and hb.indep)
                 else:
-                    self.event(it, "E1",
+                    one, other = (ha, hb) if ha.invariant else (hb, ha)
+                    kind = "E1"
+                    if one.invariant and any(m for v, n, m in other.deg):
+                        # a scale-free quantity plus one that grows with
+                        # the scale: no later step can undo that
+                        kind = "E1c"
+                    self.event(it, kind,
                                f"sum of terms that scale differently "
                                f"({ha!r} {'+' if isinstance(op, ast.Add) else '-'} {hb!r})")
         elif isinstance(op, ast.Mult):
@@ -380,7 +389,21 @@ class Tracker:
                         m = (q, -1 if neg else +1)
             elif ha.same(hb):
                 steady = not (order and any(n for v, n, mm in ha.deg))
-        return self.tagged(res, Hom((), False, m, steady), a, b)
+        why = None
+        if not steady and ha is not None and hb is not None:
+            why = (f"a comparison of {ha!r} with {hb!r}: which entries "
+                   "pass depends on the representative")
+        return self.tagged(res, Hom((), False, m, steady, why), a, b)
+
+    def selects(self, it, mask, what):
+        """A mask decides which entries are computed / kept.  If it is
+        known to change with the scale, so does the result."""
+        from .shape import AArr, AScal
+        h = getattr(mask, "hom", None) if isinstance(
+            mask, (AArr, AScal)) else None
+        if h is not None and not h.wild and not h.mixed \
+                and not h.steady and h.why and h.mask is None:
+            self.event(it, "E6", f"{what} is selected by {h.why}")
 
     def unsteady(self, v):
         """v is a mask whose truth values may depend on the scale."""
@@ -446,6 +469,8 @@ class Tracker:
         self.last_store_unsteady = any(
             isinstance(i, (AArr, ANpBool)) and self.unsteady(i) for i in idx)
         if self.last_store_unsteady:
+            for i in idx:
+                self.selects(it, i, "which entries are overwritten")
             base.hom = None
             return
         base.hom = join(base.hom, hv)
@@ -525,7 +550,9 @@ class Tracker:
                 "eig", "eigh") and len(res) == 2 and args:
             h = drop_rows(self.of(args[0]))
             vals = self.tagged(res[0], h)
-            vecs = self.tagged(res[1], self.new_var("eigvec"))
+            # LAPACK returns eigenvectors of Euclidean length 1: only their
+            # sign (phase) is arbitrary
+            vecs = self.tagged(res[1], self.new_var("eigvec", 0))
             return (vals, vecs)
         if name in ("np.any", "np.all") and args:
             if self.unsteady(args[0]):
@@ -687,10 +714,16 @@ class Tracker:
                 # +-1 according to the sign of q: scales like sign(q)
                 return out(sign_of(c.mask[0]))
             if self.unsteady(args[0]):
+                self.selects(it, args[0], "which of the two values is taken")
                 return out(None)
             return out(join(self.of(x), self.of(y)))
         if name == "np.divide" and len(args) >= 2:
             h = combine(h0, self.plain(self.of(args[1])), -1)
+            w = kw.get("where")
+            if w is not None:
+                self.selects(it, w, "where the quotient is formed")
+                if self.unsteady(w):
+                    h = None
             o = kw.get("out")
             if isinstance(o, AArr):
                 # valid-input assumption: the entries `where=` leaves alone
@@ -718,7 +751,7 @@ class Tracker:
             return out(drop_rows(combine(h0, self.plain(self.of(args[1])),
                                          +1)))
         if name == "utils.kernel":
-            return out(self.new_var("kernel"))
+            return out(self.new_var("kernel", 0))   # orthonormal, sign free
         if name in ("float", "int", "np.float64"):
             return out(h0)
         self.lost[name] = self.lost.get(name, 0) + 1
